@@ -238,6 +238,18 @@ def observe(follow_up=True):
         gin.bind_parameter('fa.q', 'follow-up-bind')
         gin.parse_config("fa.r = 'follow-up'\nFOLLOW = 1\nimport string\n")
         out['follow'] = gin.config_str(show_provenance=True)
+        # direct expectation: the programmatic re-binding carries no location, so whatever
+        # statement set fa.q before, no file:line may be attributed to it now; the two parsed
+        # follow-up statements are attributed to their own lines
+        pm = {norm_key(k): v for k, v in provenance_map(out['follow']).items()}
+        require(pm.get(('', 'fa', 'q')) is None, 'stale-provenance-after-programmatic-binding',
+                lambda: f"fa.q was re-bound by bind_parameter but is still attributed to "
+                        f"{pm.get(('', 'fa', 'q'))}\n{out['follow']}")
+        require(pm.get(('', 'fa', 'r')) == 'bindings string:1' and
+                pm.get(('macro', 'FOLLOW')) == 'bindings string:2', 'follow-up-provenance',
+                lambda: out['follow'])
+      except Violation:
+        raise
       except Exception as e:  # pylint: disable=broad-except
         out['follow'] = f'RAISED {type(e).__name__}: {e}'
     out['locked_after_follow'] = gin.config_is_locked()
